@@ -330,7 +330,8 @@ METHODS = [
     ("timestamp_to_datetime", "_Timestamp", "to_datetime", "datetime", {}),
     # the fractional digits of the JSON text as a function of `dt.microsecond`; the date-time text to the second
     # (astimezone / replace / isoformat) is not modelled: see TrTime.select
-    ("timestamp_to_json_frac", "_Timestamp", "timestamp_to_json", "fractext", {"dt": ["microsecond"]}),
+    # (timestamp_to_json: the fragment translation `timestamp_to_json_frac` is subsumed by the WHOLE translation of
+    #  harness/extract_srcleaf.py; it read a field of `dt` and refuses the repaired source D52, which rebinds `dt` first)
 ]
 # modelled but NOT translated (BpModel/Time.lean `durFromJson`): `_Duration.delta_from_json` parses a str with `Decimal`.
 
